@@ -116,6 +116,7 @@ type fnTrans struct {
 	outside       map[string]int
 	callSites     map[ssa.Instruction]string
 	usedAsserts   map[string]bool
+	edgeSites     map[[2]*ssa.BasicBlock][]string // `end loop N` sites: control-flow edges that carry clauses
 	calleeLibs    map[string]bool // spec libraries named by the contracts of the functions called
 	usedSites     map[string]bool
 	stmtSites     map[ssa.Instruction][]string
@@ -809,6 +810,26 @@ func (f *frame) instr(in ssa.Instruction) {
 // phiStub returns the IVL block that an edge from->to must target: when `to`
 // starts with phis an intermediate block assigns them.
 func (f *frame) phiStub(from, to *ssa.BasicBlock) *Block {
+	target := f.phiStub0(from, to)
+	t := f.t
+	if f.parent == nil && t.hasStmtSites {
+		f.stmtSite(nil) // make sure the site tables exist
+		if sites := t.edgeSites[[2]*ssa.BasicBlock{from, to}]; len(sites) > 0 {
+			eb := t.proc.NewBlock("edge-site")
+			saved := t.cur
+			t.cur = eb
+			for _, s := range sites {
+				f.fireSite(s)
+			}
+			t.cur.Goto(target)
+			t.cur = saved
+			return eb
+		}
+	}
+	return target
+}
+
+func (f *frame) phiStub0(from, to *ssa.BasicBlock) *Block {
 	t := f.t
 	var phis []*ssa.Phi
 	for _, in := range to.Instrs {
